@@ -109,4 +109,19 @@ ActTable(m, w, a) ==
 BeliefTable(m, w) ==
   [den |-> ObsDen(m, w), rden |-> RewDen(m, w), absb |-> BAbsorbing(m, w),
    act |-> TLCEval([a \in Ac(m) |-> ActTable(m, w, a)])]
+
+\* ---------------------------------------------------------------- state-dependent action sets (added for C07)
+\* Some states (typically terminal ones) offer only a subset of the actions (avail[s][a] = 0) while the
+\* observation kernel O[a][n][.] is defined for EVERY (a, n), also when a is not available in the arrival
+\* state n.  The filter / belief MDP are only defined for actions available in every supported state.
+PWellFormedSD(m) ==
+  /\ WellFormed(m)
+  /\ m.NO >= 1 /\ m.OD >= 1
+  /\ \A s \in St(m) : \A a \in Ac(m) : m.avail[s][a] \in {0, 1}
+  /\ \A a \in Ac(m) : \A n \in St(m) :
+        /\ SumTo([o \in Ob(m) |-> m.O[a][n][o]], m.NO) = m.OD
+        /\ \A o \in Ob(m) : m.O[a][n][o] >= 0
+Allowed(m, w) == {a \in Ac(m) : \A s \in BSupp(m, w) : m.avail[s][a] = 1}
+\* value of a belief under one alpha vector (integers), numerator over BSum(w)
+AlphaValue(m, w, alpha) == SumTo([s \in St(m) |-> Safe(w[s] * alpha[s])], m.N)
 =============================================================================
